@@ -46,6 +46,16 @@ def cmpDuration : OptionalDuration → Nat → Ordering
   | none, _ => .gt
   | some d, other => compare d other
 
+/-- `impl From<Duration> for OptionalDuration` (timing.rs:150-158): a zero duration means "none". -/
+def ofDuration (ms : Nat) : OptionalDuration := if ms = 0 then none else some ms
+
+/-- `impl FromStr for OptionalDuration` (timing.rs:127-139): seconds as `u64`; `0` means "none".
+    `none` = `ParseIntError` (not a `u64`); the value is in milliseconds like everything here. -/
+def ofSecsText (secs : Option Nat) : Option OptionalDuration :=
+  match secs with
+  | none => none
+  | some v => if v = 0 then some none else some (some (v * 1000))
+
 end OptionalDuration
 
 /-! ## `config::Options` and its builder (config.rs) -/
